@@ -29,7 +29,8 @@ def cat_nforms():
         'uri': ['x', 'a', 'http://x/', 'text/plain', u'é', ' '],
         'bin': ['x', 'a', 'text/plain', 'http://x/'],
         'ref': [('a', None), ('x', None), ('a', 'dis'), ('a', ''), ('a', 'a'), ('x', 'dis'), ('a', 'other')],
-        'xstr': [('Type', 'x'), ('Type', 'y'), ('hex', 'deadbeef'), ('hex', '00'), ('b64', 'AQI='), ('Other', 'z')],
+        'xstr': [('Type', 'x'), ('Type', 'y'), ('hex', 'deadbeef'), ('hex', '00'), ('b64', 'AQI='), ('Other', 'z'),
+                 ('b64', '3q2+7w=='), ('b64', 'AA=='), ('hex', '0102')],    # the same bytes in the other encoding: equal values
         'date': [(2020, 1, 1), (2020, 1, 2), (1, 1, 1)],
         'time': [(0, 0, 0, 0), (12, 0, 0, 0), (12, 0, 0, 1)],
         'coord': [(0.0, 0.0), (1.0, 2.0), (1.0, 2.0000001), (-90.0, 180.0), (1, 2)],
